@@ -208,6 +208,21 @@ var subcommands = []string{"init", "add", "rm", "commit", "status", "log", "refl
 // garbage emits a syntactically odd command line. All of them are "constructed as invalid".
 func garbage(k *Walker) {
 	r := k.R
+	if k.invalid == "" {
+		k.invalid = "garbage"
+	}
+	if r.IntN(6) == 0 {
+		// the root command itself, its flags, cobra's built-in commands, flags that exclude each other
+		id := strings.Repeat("a", 40)
+		if rp := k.W.State().Repo(); rp != nil && len(rp.Objects) > 0 {
+			id = gitfmt.SortedKeys(rp.Objects)[r.IntN(len(rp.Objects))]
+		}
+		root := [][]string{{}, {"-v"}, {"--version"}, {"-t"}, {"--toggle", "-v"}, {"help"}, {"help", "add"}, {"help", "nope"}, {"version"}, {"completion", "bash"}, {"completion"}, {"--nope"}, {"-h"}, {"add", "--help"},
+			{"cat-file", "-t", "-p", id}, {"cat-file", id}, {"cat-file", "-p", "-p", id}, {"reset", "--soft", "--hard", "HEAD@{0}"}, {"reset", "--soft", "--mixed", "--hard", "HEAD@{0}"}, {"branch", "--list", "-d", "main"}, {"branch", "-d", "x", "-r", "y"},
+			{"switch", "-c"}, {"switch", "-c", "a", "b"}, {"log", "-n"}, {"log", "-n", "-1"}, {"log", "-n", "x"}, {"config"}, {"config", "user.name"}, {"config", "--global"}, {"config", "a", "b"}, {"config", ".", "b"}, {"config", "a.", "b"}, {"config", ".a", "b"}, {"config", "a.b.c", "d"}}
+		k.goit(root[r.IntN(len(root))]...)
+		return
+	}
 	sub := pickS(r, subcommands[:18])
 	junk := []string{"--nope", "-Z", "--", "", "x", "HEAD@{0}", strings.Repeat("a", 40), "a(", "[", "*", "\\", "--staged", "--hard", "-n", "-m", "--list", "-d", "-r", "--global", "-c", "..", strings.Repeat("z", 300)}
 	var args []string
@@ -215,9 +230,6 @@ func garbage(k *Walker) {
 	n := r.IntN(4)
 	for i := 0; i < n; i++ {
 		args = append(args, pickS(r, junk))
-	}
-	if k.invalid == "" {
-		k.invalid = "garbage"
 	}
 	k.goit(args...)
 }
